@@ -270,7 +270,12 @@ def _solve(solver, when, method, allow_neg, mon, hist, sigs, fam, rhs, extra=Non
         solver.solve_stress(when=when, **kw)
     except Exception as exc:
         import traceback
-        if method == "fix_stress" and isinstance(exc, (ValueError, IndexError)):
+        from forsys.exceptions import DifferentTissueException
+        if isinstance(exc, DifferentTissueException):
+            # the tracker refused a pair of generated frames (its documented pre-condition on the bounding box, C12): no
+            # velocity term exists for this frame - outside the domain of C05, counted
+            hist["frames-rejected-by-tracker"] = hist.get("frames-rejected-by-tracker", 0) + 1
+        elif method == "fix_stress" and isinstance(exc, (ValueError, IndexError)):
             mon.fail("F-FIXSTRESS", "every selectable back-end returns a result", exc=repr(exc)[:160])
         else:
             mon.fail("solve-raises", "every selectable back-end returns a result", exc=repr(exc)[:200], method=method,
